@@ -72,6 +72,13 @@ fn class(name: &str, n: usize) -> Class {
             k[at] = scalar(f64::NAN);
             ("nan", k, Some(at))
         }
+        // keys bit-identical to the placeholder values: OUTSIDE the property (`c16 one sentinel ...` shows why)
+        "sentinel" => {
+            let mut k: Vec<Value> = (0..n).map(|i| scalar(i as f64)).collect();
+            k[1.min(n - 1)] = scalar(f64::from_bits(EMPTY_BITS));
+            k[n - 1] = scalar(f64::from_bits(TOMB_BITS));
+            ("sentinel", k, None)
+        }
         "negzero" => {
             // 0.0 and -0.0 are the same key
             let mut k: Vec<Value> = (0..n).map(|i| scalar(i as f64)).collect();
